@@ -41,6 +41,7 @@ func worldC20(w *World) {
 	for i := 0; i < nStartFail+nPeriodic+8; i++ {
 		stalls = append(stalls, t.Rare(stallPct, 100, "stall?"))
 	}
+	stallBody := t.Rare(1, 4, "stallbody")
 	signal := t.Rare(2, 3, "signal?")
 	sig := []syscall.Signal{syscall.SIGINT, syscall.SIGTERM}[t.Choice(2, "which")]
 	grace := []time.Duration{0, 2 * time.Second, 10 * time.Second, 30 * time.Second, 2800 * time.Millisecond, 900 * time.Millisecond}[t.Choice(6, "grace")]
@@ -125,6 +126,17 @@ func worldC20(w *World) {
 				mu.Unlock()
 				if pass {
 					rw.WriteHeader(200)
+				} else if stallBody && n%2 == 1 {
+					// the failure's status line and headers arrive at once, its (announced)
+					// body never does
+					w.Probe("failing_health_check_with_stalled_body")
+					if hj, ok := rw.(http.Hijacker); ok {
+						if c, _, err := hj.Hijack(); err == nil {
+							fmt.Fprintf(c, "HTTP/1.1 503 Service Unavailable\r\nContent-Length: 4096\r\n\r\nsick")
+							time.Sleep(10 * time.Minute)
+							c.Close()
+						}
+					}
 				} else {
 					rw.WriteHeader(500 + n%4)
 				}
